@@ -75,6 +75,14 @@ def replay(ctx, payload):
     return 0
 
 
+def run_forked(func, *args):
+    """Run func(*args) in a forked child and return its (picklable) result: for scenarios that change process-wide state
+    of the library (Pattern.poll() replaces __next__ on the CLASS), so that nothing leaks into the other cases."""
+    import multiprocessing as mp
+    with mp.get_context("fork").Pool(1) as pool:
+        return pool.apply(func, args)
+
+
 def report(ctx, prop, cid, script, impl, model, e, oracle_problem, sig_class):
     if "hang" in impl:
         ctx.violation("%s:hang:%s" % (prop, sig_class), "next() did not return within the time limit",
